@@ -36,6 +36,10 @@
   | GenFuncsCtrlGovX  | GovCtrler.{execProposing,execVoting,ExecuteTrx} |
   | GenFuncsCtrlGovBlk | GovCtrler.{doPunish,freezeProposals} |
   | GenFuncsCtrlStakeBlk | StakeCtrler.{doRewardTo,unfreezingStakes} |
+  | round 4 (the ledger itself) | generic memItems / SimpleLedger / FinalityLedger against `Rigo.Ledger.Impl` (owner C18) |
+  | GenFuncsSignerSign | round 4: voteToStep, SFilePV.{saveSigned,signVote,signProposal} = `Signer.compute` / `step` (sign bytes, timestamp helper, key signing as oracles; `Save` as the persist point) |
+  | GenFuncsLedgerMem | memItems.{appendRemovedKey,isRemovedKey,setGotItem,setUpdatedItem,getGotItem,delGotItem,delUpdatedItem,delRemovedKey,reset,refresh}, LedgerKeyList.Less |
+  | GenFuncsLedger    | SimpleLedger.{Set,CancelSet,read,Read,get,Get,del,Del,CancelDel}, FinalityLedger.{SetFinality,CancelSetFinality,getFinality,GetFinality,DelFinality,CancelDelFinality,Commit} = `Impl.{set,cancelSet,read,get,del,cancelDel,setF,cancelSetF,getF,delF,cancelDelF,commit}` |
 -/
 import RigoProofs.GenFuncsSimple
 import RigoProofs.GenFuncsLoops
@@ -43,6 +47,7 @@ import RigoProofs.GenFuncsLimiter
 import RigoProofs.GenFuncsSlash
 import RigoProofs.GenFuncsValUpd
 import RigoProofs.GenFuncsSigner
+import RigoProofs.GenFuncsSignerSign
 import RigoProofs.GenFuncsStake2
 import RigoProofs.GenFuncsTx
 import RigoProofs.GenFuncsMerge
@@ -59,3 +64,4 @@ import RigoProofs.GenFuncsCtrlUnstake
 import RigoProofs.GenFuncsCtrlGovX
 import RigoProofs.GenFuncsCtrlGovBlk
 import RigoProofs.GenFuncsCtrlStakeBlk
+import RigoProofs.GenFuncsLedger
